@@ -67,25 +67,6 @@ def R2_split(run):
     run.title("R2", "calculate_protocol_fee = floor(fee * rate / 10_000); calculate_fees subtracts that cut from the fee before adding "
                     "floor((fee - cut) << 64 / liquidity) to the growth (only when liquidity > 0) and adds the cut to the protocol accumulator (only when rate > 0)")
     facts = run.facts
-    fn = facts.need_fn("manager::swap_manager::calculate_protocol_fee")
-    run.touch(fn)
-    pv = prov_of(fn)
-    ret = None
-    for bi, bb in enumerate(fn.blocks):
-        if bb["t"]["k"] == "ret":
-            ret = pv.local(0, bi, len(bb["s"]))
-    divs = [s for s in subterms(ret) if s[0] == "bin" and s[1] == "Div"] if ret else []
-    ok = len(divs) == 1
-    if ok:
-        d = divs[0]
-        m = strip(d[2])
-        ok = const_val(d[3]) == 10000 and m[0] == "bin" and m[1] in ("Mul", "MulWithOverflow") and \
-            {arg_name(m[2]), arg_name(m[3])} == {"global_fee", "protocol_fee_rate"}
-    run.check("R2", "protocol-cut", ok, "calculate_protocol_fee is not (global_fee * protocol_fee_rate) / PROTOCOL_FEE_RATE_MUL_VALUE(10000) with truncating division: %s" % (sh(ret, 160) if ret else None),
-              loc=fn.loc(), detail="floor(fee * rate / 10000)")
-    # the product cannot overflow: both operands are widened to u128 first
-    ok = ret is not None and all(s[0] != "bin" or s[1] not in ("Mul", "MulWithOverflow") or (strip(s[2]) != s[2] and strip(s[3]) != s[3]) for s in subterms(ret))
-    run.check("R2", "protocol-cut-widened", ok, "the fee * rate product is not computed in u128", loc=fn.loc(), detail="(fee as u128) * (rate as u128)")
     fn = facts.need_fn("manager::swap_manager::calculate_fees")
     run.touch(fn)
     # parameter names by the role of the argument the swap loop passes (robust to renaming / reordering the private helper's parameters)
@@ -104,6 +85,24 @@ def R2_split(run):
         run.missing("R2", "calculate_fees-parameters", "swap loop does not call calculate_fees with (step fee, protocol rate, liquidity, protocol accumulator, growth accumulator): roles found %s" % sorted(pn), loc=sw_.loc())
         return
     P_FEE, P_RATE, P_LIQ, P_PF, P_GROWTH = pn["fee"], pn["rate"], pn["liq"], pn["pf"], pn["growth"]
+
+    def is_cut(t):
+        """The protocol's cut of the step fee, written in place (the helper calculate_protocol_fee is always analysed inlined):
+        (fee as u128 * rate as u128) / 10_000, truncating, narrowed back."""
+        t = strip(t)
+        while t[0] == "call" and t[1].rsplit("::", 1)[-1] in ("try_into", "unwrap", "into", "from") and len(t[2]) == 1:
+            t = strip(t[2][0])
+        if not (t[0] == "bin" and t[1] == "Div" and const_val(t[3]) == 10000):
+            return False, False
+        m = t[2]
+        while m[0] == "q":
+            m = m[1]
+        ms = strip(m)
+        if not (ms[0] == "bin" and ms[1] in ("Mul", "MulWithOverflow")):
+            return False, False
+        names = {("fee" if is_param(ms[2], P_FEE) else "rate" if is_param(ms[2], P_RATE) else "?"), ("fee" if is_param(ms[3], P_FEE) else "rate" if is_param(ms[3], P_RATE) else "?")}
+        wide = all(x[0] == "cast" and x[2] == "u128" for x in (ms[2], ms[3]))
+        return names == {"fee", "rate"}, wide
     ats = A.atoms(fn, {}, cut=True)
     a_rate = a_liq = None
     for at in ats:
@@ -127,10 +126,11 @@ def R2_split(run):
     ok = r is not None and r[0] == "tuple"
     if ok:
         pf, gr = strip(r[1][0]), strip(r[1][1])
-        cut_ok = pf[0] == "call" and pf[1].endswith("wrapping_add") and is_param(pf[2][0], P_PF) and is_call(pf[2][1], "calculate_protocol_fee")
-        if cut_ok:
-            cp = strip(pf[2][1])
-            cut_ok = is_param(cp[2][0], P_FEE) and is_param(cp[2][1], P_RATE)
+        cut_ok = pf[0] == "call" and pf[1].endswith("wrapping_add") and is_param(pf[2][0], P_PF) and is_cut(pf[2][1])[0]
+        wide_ok = cut_ok and is_cut(pf[2][1])[1]
+        run.check("R2", "protocol-cut", cut_ok, "the protocol's cut is not (fee_amount * protocol_fee_rate) / PROTOCOL_FEE_RATE_MUL_VALUE(10000) with truncating division: %s" % sh(pf, 160),
+                  loc=fn.loc(), detail="floor(fee * rate / 10000)")
+        run.check("R2", "protocol-cut-widened", wide_ok, "the fee * rate product is not computed in u128", loc=fn.loc(), detail="(fee as u128) * (rate as u128)")
         g_ok = gr[0] == "call" and gr[1].endswith("wrapping_add") and is_param(gr[2][0], P_GROWTH)
         if g_ok:
             dv = strip(gr[2][1])
@@ -140,7 +140,7 @@ def R2_split(run):
                 g_ok = sh_[0] == "bin" and sh_[1] in ("Shl", "ShlUnchecked") and const_val(sh_[3]) == 64
                 if g_ok:
                     net = strip(sh_[2])
-                    g_ok = net[0] == "bin" and net[1] in ("Sub", "SubWithOverflow") and is_param(net[2], P_FEE) and is_call(net[3], "calculate_protocol_fee")
+                    g_ok = net[0] == "bin" and net[1] in ("Sub", "SubWithOverflow") and is_param(net[2], P_FEE) and is_cut(net[3])[0]
         run.check("R2", "protocol-accumulates", cut_ok, "protocol accumulator is not curr_protocol_fee + calculate_protocol_fee(fee_amount, rate): %s" % sh(pf, 120), loc=fn.loc(),
                   detail="next_protocol_fee = curr + cut")
         run.check("R2", "lp-growth", g_ok, "LP growth increment is not ((fee_amount - cut) << 64) / curr_liquidity added to the running growth: %s" % sh(gr, 200), loc=fn.loc(),
